@@ -6,7 +6,10 @@ ID = 'C05'
 LEAN_MODULES = ['TboxModel.C05.Props']
 EXE = 'c05'
 MODE = 'trace'
-THEOREMS = ['Tbox.C05.C05_exactly_once', 'Tbox.C05.C05_worker_only', 'Tbox.C05.C05_callback_once',
+THEOREMS = ['Tbox.C05.C05_accounted', 'Tbox.C05.C05_final_accounting', 'Tbox.C05.C05_cleanup_joins_all',
+            'Tbox.C05.C05_no_lost_wakeup', 'Tbox.C05.C05_no_stranded_task', 'Tbox.C05.C05_cleanup_joins_all_counterexample',
+            'Tbox.C05.C05_no_stranded_task_counterexample',
+            'Tbox.C05.C05_exactly_once', 'Tbox.C05.C05_worker_only', 'Tbox.C05.C05_callback_once',
             'Tbox.C05.C05_cancel_sound', 'Tbox.C05.C05_status_consistent', 'Tbox.C05.C05_priority_fifo',
             'Tbox.C05.C05_max_workers', 'Tbox.C05.C05_no_deadlock', 'Tbox.C05.C05_cleanup_progress',
             'Tbox.C05.C05_no_null_join',
@@ -34,10 +37,18 @@ TRUSTED = ['model lean/TboxModel/C05/Model.lean is hand-written from thread_pool
 ASSUMPTIONS = ['execute/cancel/getTaskStatus/snapshot/cleanup are called from the loop thread only (the property quantifies over that)',
                'task bodies terminate; fair scheduling of worker threads (needed for "cleanup terminates" on top of deadlock freedom)',
                'no re-initialize after cleanup inside one case', 'cabinet ids do not wrap (2^32 tasks)']
-RULE = ('cases = (pool min/max in {0..4}x{1..6} incl. invalid, or WorkThread) x 1-200 tasks (priorities -3..3, bodies 0-3 ms, callbacks) interleaved '
+RULE_OLD = ('cases = (pool min/max in {0..4}x{1..6} incl. invalid, or WorkThread) x 1-200 tasks (priorities -3..3, bodies 0-3 ms, callbacks) interleaved '
         'with status/cancel/snapshot/hammer ops, cleanup at a random point, PRNG-seeded worker delays (before mutex lock, between predicate and '
         'wait); non-trivial = at least one task ran AND (an answer waiting/executing/cancelled was observed OR >= 2 workers ran bodies OR the '
         'pick-order clause was asserted on >= 1 pair); distinct = distinct op text')
+
+
+RULE = ('cases = (pool min/max in {0..4}x{1..6} incl. invalid, or WorkThread) x 1-200 tasks (priorities -3..3, bodies 0-3 ms, callbacks) interleaved '
+        'with status/cancel/snapshot/hammer/settle ops, cleanup at a random point, PRNG-seeded delays (worker: before mutex lock, between predicate and '
+        'wait, after unlock; loop thread inside cleanup: after unlock); worker-level records (threads created per execute, quiescent snapshots, thread '
+        'start/end) checked against the model\'s spawn / voluntary-exit decisions as model-internal observables; non-trivial = at least one task ran AND '
+        '(an answer waiting/executing/cancelled was observed OR >= 2 workers ran bodies OR the pick-order clause was asserted on >= 1 pair OR a spawn / '
+        'exit decision was checked at a quiescent point); distinct = distinct op text')
 
 
 def gen_case(rng, tier):
@@ -79,12 +90,28 @@ def gen_case(rng, tier):
         for _ in range(rng.choice([0, 0, 1, 2, 4])): ex()
         if n[0] and rng.random() < 0.7: ops.append('drain')
         if rng.random() < 0.5: ops.append('sleep %d' % rng.choice([0, 300, 1000, 2500]))
-    elif shape < 0.33:
-        # (c) voluntarily exiting workers against cleanup
+    elif shape < 0.30:
+        # (c)/(d) voluntarily exiting workers against cleanup: is every worker joined when cleanup() returns?
         for _ in range(rng.choice([1, 2, 3, 6])): ex()
         ops.append('drain')
-        ops.append('sleep %d' % rng.choice([0, 100, 500, 1500, 4000]))
-    elif shape < 0.5:
+        ops.append('sleep %d' % rng.choice([0, 100, 500, 1500, 4000, 6000, 8000, 10000]))
+    elif shape < 0.40:
+        # (e) a task submitted while the last worker is on its way out must still be executed
+        for _ in range(rng.choice([1, 1, 2, 3])): ex()
+        for _ in range(rng.choice([1, 2, 3])):
+            ops.append('drain')
+            ops.append('sleep %d' % rng.choice([500, 1500, 3000, 4000, 5000, 6000, 8000]))
+            for _ in range(rng.choice([1, 1, 2])): ex()
+        ops.append(rng.choice(['drain', 'settle']))
+    elif shape < 0.50:
+        # spawn rule / voluntary-exit rule at quiescent points (worker-level records, M-class)
+        ops.append('settle')
+        for _ in range(rng.choice([2, 4, 8])):
+            for _ in range(rng.choice([1, 1, 2, 4])): ex()
+            if rng.random() < 0.3: probe()
+            ops.append('settle')
+            if rng.random() < 0.4 and kind == 'pool': ops.append('snap')
+    elif shape < 0.62:
         # priority / FIFO: block the worker(s) with long bodies, then queue up mixed priorities
         for _ in range(rng.choice([1, 2, 3])): ops.append('exec 0 0 3000'); n[0] += 1
         for _ in range(nt): ex()
@@ -123,21 +150,34 @@ def gen(rng, tier):
            'stat 0', 'snap', 'cleanup', 'stat 1', 'exec 0 0 0', 'fin']
     yield ['cfg pool 0 3 14 600', 'exec 0 0 300', 'exec 0 0 300', 'exec 0 0 300', 'drain', 'sleep 1500', 'cleanup', 'fin']
     yield ['cfg pool 3 2 15 0', 'exec 0 0 0', 'snap', 'cleanup', 'fin']
+    yield ['cfg pool 0 1 17 900', 'exec 0 0 100', 'drain', 'sleep 4000', 'exec 0 0 100', 'drain', 'sleep 6000', 'exec 0 1 100', 'settle', 'cleanup', 'fin']
+    yield ['cfg pool 1 3 18 300', 'settle', 'exec 0 0 300', 'settle', 'exec 0 0 300', 'exec 0 0 300', 'exec 0 0 300', 'settle', 'snap',
+           'exec 0 1 100', 'settle', 'cleanup', 'fin']
+    yield ['cfg pool 0 3 19 900', 'exec 0 0 100', 'exec 0 0 100', 'exec 0 0 100', 'drain', 'sleep 8000', 'cleanup', 'fin']
     yield ['cfg wt 0 0 16 300', 'exec 0 1 1000', 'exec 0 1 0', 'exec 0 0 0', 'hammer 2000', 'cancel 2', 'drain', 'cleanup', 'cancel 0', 'stat 1', 'exec 0 0 0', 'fin']
     for _ in range(n):
         yield gen_case(rng, tier)
 
 
+M_DIVERGENCES = []      # (ops, text): model-internal (policy) divergences seen by the driver in this run
+
+
 def nontrivial(ops, model_lines):
+    for l in model_lines:
+        if l.startswith('mdiv '):
+            M_DIVERGENCES.append((list(ops), l[5:]))
+            break
     tags = ' '.join(l for l in model_lines if l.startswith('B ')).split()
     if 'ran' not in tags: return None
-    return 1 if any(t in tags for t in ('stat-w', 'stat-e', 'cancel-0', 'cancel-2', 'multi-worker', 'order-checked')) else None
+    return 1 if any(t in tags for t in ('stat-w', 'stat-e', 'cancel-0', 'cancel-2', 'multi-worker', 'order-checked', 'spawn-checked-0',
+                                       'spawn-checked-1', 'exit-rule-checked')) else None
 
 
 def fingerprint(ops, d):
     if not d: return 'schedule-dependent-not-reproduced'
     txt = d[1] or ''
-    for key, fp in (('DEADLOCK', 'cleanup-deadlock'), ('NOT FOUND', 'status-not-found-then-runs'), ('cancellable', 'waiting-after-start'),
+    for key, fp in (('not joined', 'cleanup-unjoined-worker'), ('had not finished', 'cleanup-unjoined-worker'),
+                    ('drain:', 'task-never-executed'), ('settle:', 'task-never-executed'), ('DEADLOCK', 'cleanup-deadlock'), ('NOT FOUND', 'status-not-found-then-runs'), ('cancellable', 'waiting-after-start'),
                     ('tsan', 'tsan-data-race'), ('signal6', 'abort'), ('signal11', 'segv'), ('pick order', 'pick-order'),
                     ('more than once', 'twice'), ('exceed the maximum', 'max-workers'), ('timeout', 'cleanup-deadlock'),
                     ('cancel reported success', 'cancelled-ran'), ('callback', 'callback')):
@@ -150,7 +190,19 @@ def check(tier, seed, replay=None):
     g = dict(globals())
     g.pop('check', None)
     g['HARNESS_ENV'] = {'C05_WATCHDOG_MS': '3000' if tier == 'quick' else '5000'}
-    return vlib.standard_check(types.SimpleNamespace(**g), tier, seed, replay)
+    del M_DIVERGENCES[:]
+    rc = vlib.standard_check(types.SimpleNamespace(**g), tier, seed, replay)
+    if rc == 0 and M_DIVERGENCES:
+        # model-internal observable (spawn rule / voluntary-exit rule / thread accounting): the correspondence is
+        # broken although no property-level failing input was found
+        ops, text = M_DIVERGENCES[0]
+        body = vlib.case_text(0, ops) + '# correspondence broken on a model-internal observable (seed=%d)\n# %s\n# %d case(s) diverge\n' % (
+            seed, text, len(M_DIVERGENCES))
+        path = vlib.write_replay(ID, 'correspondence.ops', body)
+        print('VIOLATION property=%s replay=%s no-failing-input-found' % (ID, path), flush=True)
+        vlib.log('  -> model-internal divergence: ' + text[:300])
+        return 1
+    return rc
 
 
 LEVEL_TEXT = ('Lean 4 theorems over an interleaving model of ThreadPool/WorkThread (shared state + per-worker program counters; steps = the code\'s '
